@@ -54,7 +54,7 @@ def falsify(chk, P, n_files, per_file_flips, n_random, extra_inputs=()):
 def main():
     chk = common.Check('C09')
     import mo_common as P
-    proved = chk.prove('I18n.Props.C09', generated=())
+    proved = P.prove(chk, 'I18n.Props.C09')
     extra = []
     if os.path.exists(common.driver_path()):
         nf = 250 if chk.thorough else 60
@@ -86,10 +86,14 @@ def main():
              'either magic (small-word, small-byte and uniform styles); structurally broken catalogs (order, NUL structure, duplicates); non-trivial = distinct outcome line',
         trusted=['Lean 4.33 kernel', 'axioms: propext, Classical.choice, Quot.sound only',
                  'Spec.Encodes is my reading of the GNU MO format; the Python reference reader in tools/checks/mo_common.py is a second, independent reading',
-                 'hand-written models Mo.parse / Mo.checkerLoad: tied to lib/moparser.py and Checker.check by the streams only',
+                 'the tie of Mo.parse to lib/moparser.py: tools/translate/mo2lean.py (one Lean shape per Python construct) and the kit I18n.Mo.Py of CPython operations; the regenerated parser is PROVED equal to Mo.parse '
+                 '(Props/C08Tie.lean); translation + kit are exercised against CPython by the *-generated streams; Mo.checkerLoad is tied to Checker.check by the mo-check stream only',
                  'CPython struct / memoryview / bytes.split semantics as modelled (clamped slices, IndexError on view[i], struct.error on size mismatch)',
                  'text decoding is a parameter (CodecDB); Latin1OK (ISO-8859-1 is ASCII-compatible and total) is assumed for the checker theorems'],
-        explanation='Proved for all byte strings and codec databases: parse_total_closed (ok / SyntaxError / UnicodeDecodeError only: struct.error, unpack ValueError, '
+        explanation='TIE: Generated/MoParser.lean is regenerated from the current lib/moparser.py on every run and generated_parse_eq_model (Props/C08Tie.lean) proves it equal to Mo.parse for every byte string, '
+                    'so the theorems below hold of the regenerated source (parse_total_closed_generated, parse_ok_iff_generated, reject_not_encodes_generated); a source change breaks that proof or the '
+                    'translation (coverage.tie) and starts the falsifier. '
+                    'Proved for all byte strings and codec databases: parse_total_closed (ok / SyntaxError / UnicodeDecodeError only: struct.error, unpack ValueError, '
                     'TypeError on bytes<None and every assert are unreachable), parse_sound + parse_ok_iff (accepted iff the bytes are a legal MO file of a well-formed '
                     'catalog whose text decodes; the returned entries are the decoding of the strings at the declared in-bounds offsets, each followed by NUL), '
                     'reject_not_encodes, reject_bad_magic, reject_major, reject_short_header, defect clauses (table word / string beyond end, missing terminator, '
